@@ -7,6 +7,7 @@
 //	G4 function digests     -> Gen/Digests.lean
 //	G6 globals / writers    -> Gen/Globals.lean
 //	G8 validation facts     -> Gen/Validation.lean
+//	G9 translated functions -> Gen/Fn.lean          (gofn.go)
 package main
 
 import (
@@ -1056,6 +1057,11 @@ func main() {
 	}
 	sb5.WriteString("\nend Jwt.Gen\n")
 	must(os.WriteFile(filepath.Join(*out, "Sites.lean"), []byte(sb5.String()), 0o644))
+
+	// ---------- G9: translated functions ----------
+	fnText, fnUnsupp := genFns(infos)
+	must(os.WriteFile(filepath.Join(*out, "Fn.lean"), []byte(fnText), 0o644))
+	facts["fn_unsupported"] = fnUnsupp
 
 	b, _ := json.MarshalIndent(facts, "", " ")
 	must(os.WriteFile(filepath.Join(*out, "facts.json"), b, 0o644))
